@@ -63,6 +63,11 @@ SPECIAL = [
     'c1ccc(Cl(=O)(=O)=O)cc1', 'CC(Cl(=O)=O)C', 'C(Br(F)(F)F)C', 'OC(Cl=O)C', 'C1CC(Cl1)C', 'C1CC(Br1)C', 'CC(I(C)C)C',
     'C(Cl(C)C)(Br(C)C)C', 'CCl(C)C', 'C(ClC)C', 'C(BrCC)C', 'C(IC)C', 'C(Cl=O)F', 'FC(Cl(F)F)Br(F)F', 'C(Cl)(Br(=O)=O)C',
     'OCl(=O)(=O)=O', 'C(Br1CCC1)C', 'N(Cl(C)C)C', 'C(=Cl(C)C)C', 'C(#ClC)C',
+    # rings in which lone-pair donors (o, s, [nH], substituted n) separate the carbons that need a pi bond, in every
+    # rotation: kekulizable only when the remaining carbons pair up
+    'o1ccoc1', 'c1ococ1', 'c1occo1', 'o1cocc1', 'c1coco1', 's1ccsc1', '[nH]1cc[nH]c1', 'n1(C)ccn(C)c1', 'o1ccccoc1',
+    'o1ccocc1', 'c1cocco1', 'o1ccoc1C', 'c1coc2occc12', 'o1cc2ccoc2c1', 's1cc[nH]c1', 'o1cc[nH]cc1', 'c1c[nH]cco1',
+    'o1cccoc1', 'c1ocococ1', 'o1cccc1', 'c1cocc1', 'n1(C)cccc1', '[nH]1ccc2occc12',
     # bracketed aromatic atoms of every aromatic element, plain and labelled (same pi demand as the bare atom)
     'c1cc[p]cc1', 'c1c[p]cc[p]1', 'c1cc[n]cc1', 'c1c[n]cc[n]1', 'c1cc[o]c1', 'c1cc[s]c1', 'c1cc[31p]cc1', 'C[p]1cccc1',
     'c1cc[pH]c1', 'c1cc[p]c2ccccc12', '[p]1ccccc1', 'c1c[p]c[p]c1', 'c1cc[se]c1', 'c1cc[te]c1', 'c1cc[as]cc1', 'c1cc[b]cc1',
